@@ -90,6 +90,22 @@ fn main() {
             let entries: Vec<(CardPair, f32)> = args[3].split(',').filter(|t| !t.is_empty()).map(|t| { let (p, w) = t.split_once(':').unwrap(); (p.parse().unwrap(), w.parse().unwrap()) }).collect();
             match search::check_c17(&entries, args[2].parse().unwrap()) { Ok(s) => println!("OK {}", s), Err(s) => { println!("MISMATCH {}", s); std::process::exit(1); } }
         }
+        Some("eval-check") => {
+            // replay eval-check <c01|c07|both> <7 cards>: compare with the first-principles oracle
+            match search::check_eval(&cards7(&args[3..10]), &args[2]) { Ok(s) => println!("OK {}", s), Err(s) => { println!("MISMATCH {}", s); std::process::exit(1); } }
+        }
+        Some("eval-search") => { std::process::exit(search::eval_search(args[2].parse().unwrap(), args[3].parse().unwrap(), args.get(4).map(|s| s.as_str()).unwrap_or("both"))); }
+        Some("c16sum") => {
+            // replay c16sum <k> <flop> full <ranges...>
+            let case = search::IterCase::parse(&args[3..]);
+            let ranges: Vec<espada::hand_range::HandRange> = case.ranges.iter().map(|r| r.iter().cloned().collect()).collect();
+            match search::check_c16sum(args[2].parse().unwrap(), &case.flop, &ranges) { Ok(s) => println!("OK {}", s), Err(s) => { println!("MISMATCH {}", s); std::process::exit(1); } }
+        }
+        Some("c16sum-search") => { std::process::exit(search::c16sum_search(args[2].parse().unwrap(), args[3].parse().unwrap())); }
+        Some("c08big") => {
+            match search::check_c08big(args[2].parse().unwrap(), args[3].parse().unwrap()) { Ok(s) => println!("OK {}", s), Err(s) => { println!("MISMATCH {}", s); std::process::exit(1); } }
+        }
+        Some("c08big-search") => { std::process::exit(search::c08big_search()); }
         Some("c06") => {
             // replay c06 <combo:weight,...>
             let entries: Vec<(CardPair, f32)> = args[2].split(',').filter(|t| !t.is_empty()).map(|t| { let (p, w) = t.split_once(':').unwrap(); (p.parse().unwrap(), w.parse().unwrap()) }).collect();
